@@ -52,7 +52,9 @@ func (c *simConsole) Read(p []byte) (int, error) {
 func (c *simConsole) Write(p []byte) (int, error) {
 	simrt.Yield("console.Write")
 	if c.closed {
+		// a write to a closed descriptor fails: nothing reaches the terminal
 		c.env.lateWrites += len(p)
+		return 0, io.ErrClosedPipe
 	}
 	c.written += len(p)
 	c.env.toTerm = append(c.env.toTerm, append([]byte(nil), p...))
